@@ -1,24 +1,31 @@
 """C17 — FUSE manager's persistent record equals its live mounts across re-init/restart."""
 import os
 
-# Candidate finding (see SV/Props/C17.lean `reinit_after_close_serves_unrecorded`): Close() is not
-# terminal; Init on the closed Server makes it Ready again and Mount is then served without a
-# store record.  Histories with Init-after-Close run in a separate pass.  While the signature is
-# not listed in findings/known_findings.txt the pass reports it as CANDIDATE-FINDING (loud, in the
-# evidence, exit code unaffected); once a `known:` line exists it goes through the normal
-# KNOWN-FINDING path; every OTHER oracle failure or mismatch of that pass is a violation as usual.
-CANDIDATE_SIG = "served-after-close-unrecorded"
+# Candidate findings: behaviours of the CURRENT code that the property text arguably excludes and
+# that are not (yet) listed in findings/known_findings.txt.  Histories that trigger them run in
+# separate passes so that the main pass stays a clean tie.  While a signature is not listed the
+# pass reports it as `CANDIDATE-FINDING` (loud, recorded in the evidence, exit code unaffected);
+# once a `known:` line exists it takes the normal KNOWN-FINDING path.  Every OTHER oracle failure
+# or stream mismatch of these passes is a violation as usual.
+CANDIDATES = {
+    # SV/Props/C17.lean `reinit_after_close_serves_unrecorded`
+    "served-after-close-unrecorded":
+        "Close() is not terminal: Init on the closed Server (history: init ok; close; init -> err 'database not "
+        "open' but status Ready; mount mp -> ok) serves mp although the store file is gone and storeFuseInfo's "
+        "error is ignored",
+    # observation: the Config field of a record is never read back (restoreFuseInfo ignores it)
+    "record-config-not-owner-config":
+        "a re-Init that fails in a configFunc or in construction has already replaced fm.config; the old "
+        "filesystem keeps serving and later Mounts record the NEW config with the OLD filesystem (history: "
+        "init A ok; init B cfgfunc -> err; mount mp -> ok on the fs built from A, record carries B)",
+}
 
 
-def after_close_pass(ctx, binary, n):
-    env = {"VERIF_N": n, "VERIF_C17_AFTERCLOSE": 1}
-    if ctx.is_known(CANDIDATE_SIG):
-        ctx.correspond(binary, "TestVerifC17", "svdriver_c17", "c17ac", env=env)
-        return
-    ops, impl, rep = ctx.run_harness(binary, "TestVerifC17", "c17ac", env=env)
+def extra_pass(ctx, binary, tag, env):
+    ops, impl, rep = ctx.run_harness(binary, "TestVerifC17", tag, env=env)
     if rep.get("crashed"):
         ctx.add_violation({"kind": "harness-crash", "test": "TestVerifC17", "seed": ctx.seed, "env": env,
-                           "output": rep.get("crash_output", "")}, sig="crash:TestVerifC17:afterclose")
+                           "output": rep.get("crash_output", "")}, sig="crash:TestVerifC17:" + tag)
     if not os.path.exists(ops):
         return
     model = ctx.run_driver("svdriver_c17", ops)
@@ -27,12 +34,17 @@ def after_close_pass(ctx, binary, n):
     ctx.cov["traces_validated_against_impl"] += nops - nm
     ctx.cov["distinct_nontrivial"] += int(rep.get("distinct_nontrivial", 0))
     ctx.cov["correspondence_mismatches"] += nm
-    st = ctx.cov["stats"].setdefault("c17ac", {})
+    st = ctx.cov["stats"].setdefault(tag, {})
     for k, v in (rep.get("stats") or {}).items():
         st[k] = st.get(k, 0) + v
     fails = rep.get("oracle_failures") or []
-    cand = [f for f in fails if f["sig"] == CANDIDATE_SIG]
-    other = [f for f in fails if f["sig"] != CANDIDATE_SIG]
+    cand = {}
+    other = []
+    for f in fails:
+        if f["sig"] in CANDIDATES and not ctx.is_known(f["sig"]):
+            cand.setdefault(f["sig"], []).append(f)
+        else:
+            other.append(f)
     ctx.cov["oracle_failures"] += len(other)
     seen = set()
     for f in other:
@@ -40,16 +52,15 @@ def after_close_pass(ctx, binary, n):
             seen.add(f["sig"])
             ctx.add_violation({"kind": "oracle", "test": "TestVerifC17", "seed": ctx.seed, "env": env,
                                "failure": f, "all_failures": other[:20]}, sig=f["sig"])
-    if nm and not other:
-        ctx.broken.append("correspondence:c17ac")
+    if nm and not [f for f in other if not ctx.is_known(f["sig"])]:
+        ctx.broken.append("correspondence:" + tag)
         ctx.pending_mismatch = {"kind": "correspondence", "test": "TestVerifC17", "seed": ctx.seed, "env": env,
                                 "mismatches": mism, "count": nm}
-    if cand:
-        what = cand[0]["what"]
-        print(f"CANDIDATE-FINDING: property=C17 sig={CANDIDATE_SIG} ({len(cand)} hits) {what}", flush=True)
-        ctx.notes.append(f"candidate finding {CANDIDATE_SIG}: {len(cand)} hits, e.g. {what}; history: "
-                         "init <c> ok - ; close ; init <c'> ok - (returns err, status Ready) ; mount <mp> <lab> ok")
-        ctx.cov["candidate_findings"] = [{"sig": CANDIDATE_SIG, "hits": len(cand), "what": what}]
+    for sig, fs in sorted(cand.items()):
+        print(f"CANDIDATE-FINDING: property=C17 sig={sig} ({len(fs)} hits, e.g. {fs[0]['what']}) {CANDIDATES[sig]}",
+              flush=True)
+        ctx.notes.append(f"candidate finding {sig}: {len(fs)} hits, e.g. {fs[0]['what']} -- {CANDIDATES[sig]}")
+        ctx.cov.setdefault("candidate_findings", []).append({"sig": sig, "hits": len(fs), "example": fs[0]["what"]})
 
 
 def run(ctx):
@@ -57,12 +68,19 @@ def run(ctx):
     quick = ctx.tier == "quick"
     b = ctx.go_test_binary("fusemanager", "h_fusemanager")
     if b:
-        ctx.correspond(b, "TestVerifC17", "svdriver_c17", "c17", env={"VERIF_N": 300 if quick else 4000})
+        rep = ctx.correspond(b, "TestVerifC17", "svdriver_c17", "c17", env={"VERIF_N": 300 if quick else 4000})
+        # structural tie: the model treats each RPC as atomic; the harness re-derives from the source it
+        # was built against that every RPC method takes fm.lock first and releases it in a defer
+        for m in ("Init", "Mount", "Check", "Unmount", "Close"):
+            ctx.cov["facts_checked"] += 1
+            if not (rep.get("stats") or {}).get("fact-lock-first:" + m):
+                ctx.broken.append("fact:lock-first:Server." + m)
         if not quick:
             for i in range(1, 4):
                 ctx.correspond(b, "TestVerifC17", "svdriver_c17", f"c17s{i}",
                                env={"VERIF_N": 2000, "VERIF_SEED": int(ctx.seed) * 1000 + i})
-        after_close_pass(ctx, b, 40 if quick else 600)
+        extra_pass(ctx, b, "c17ac", {"VERIF_N": 40 if quick else 600, "VERIF_C17_AFTERCLOSE": 1})
+        extra_pass(ctx, b, "c17cfg", {"VERIF_N": 40 if quick else 600, "VERIF_C17_STALECFG": 1})
     return ctx.finish(
         level="proof",
         rule="histories of Init(config stage / configFunc / construction failure, per-mountpoint fs.Mount failure "
